@@ -152,6 +152,8 @@ def run(sc, choices=None):
             cur["ctl"].append(0)
         elif cur is not None and m.in_message():
             cur["ctl"][-1] += 1
+    if sc.get("prior"):
+        cfg["prior"] = dict(sc["prior"])  # the object was used before: an earlier connection was lost mid-frame / mid-message
     out = run_recv(int(sc.get("seed", 1)), stream, cfg, res)
     ctx = f"{api}/{'per_fragment' if fire else 'reassembled'}"
     check_model(res, out, frames, api, fire, skip, "eof", ctx)
@@ -170,3 +172,32 @@ def sample_view(sc, r):
     return {"api": sc["api"], "fire_cont": sc.get("fire_cont"), "skip_utf8": sc.get("skip_utf8"),
             "frames": [[f["fin"], f["op"], len(f["hex"]) // 2] for f in sc["frames"]], "chunk_sizes": sc.get("sizes"),
             "timeouts_before_offset": sc.get("gaps")}
+
+
+# ---- object history: the same scenarios on a WebSocket object whose earlier connection was lost in the middle of a frame or
+# of a fragmented message (state of the earlier connection must not reach this one)
+from ..recvdrv import PRIOR_LOSSES as _PRIOR_LOSSES, gen_prior as _gen_prior  # noqa: E402
+_gen0, _plan0, _expand0 = gen, plan, expand
+
+
+def gen(rng):
+    sc = _gen0(rng)
+    pr = _gen_prior(rng)
+    if pr:
+        sc["prior"] = pr
+    return sc
+
+
+def plan(tier, seed):
+    return _plan0(tier, seed) + [{"kind": "reused", "count": 120 if tier == "quick" else 3000}]
+
+
+def expand(item, seed):
+    if item.get("kind") == "reused":
+        for i in range(item["count"]):
+            sc = _gen0(random.Random(derive_seed(seed, ID + "R", i)))
+            sc["prior"] = dict(_PRIOR_LOSSES[i % len(_PRIOR_LOSSES)])
+            yield sc
+        return
+    for sc in _expand0(item, seed):
+        yield sc
